@@ -139,7 +139,9 @@ pub fn child(k: usize, outdir: &str, seed: u64, thorough: bool) -> serde_json::V
         "SELECT t.id AS a FROM nums AS t LIMIT 18446744073709551615", "SELECT t.id AS a FROM nums AS t LIMIT 9223372036854775808", "SELECT t.id AS a FROM nums AS t LIMIT 3 OFFSET 18446744073709551615",
         "SELECT t.f_zero / t.f_zero AS a FROM nums AS t", "SELECT t.f_pt / t.f_zero AS a FROM nums AS t", "SELECT SUM(t.f_zero / t.f_opt) AS a FROM nums AS t",
         // a NaN operand (witness of the listed finding C18-reversed-interval-assert)
-        "SELECT (LOG(-9223372036854775807) / t.f_zero) AS a, t.i_pt AS b FROM nums AS t", "SELECT LOG(-1) * t.f_zero AS a FROM nums AS t"];
+        "SELECT (LOG(-9223372036854775807) / t.f_zero) AS a, t.i_pt AS b FROM nums AS t", "SELECT LOG(-1) * t.f_zero AS a FROM nums AS t",
+        // a CTE named like the table its body reads
+        "WITH nums AS (SELECT t.id AS id FROM nums AS t) SELECT s.id AS a FROM nums AS s"];
     for i in 0..n {
         let mut r = rng.fork();
         let variant = r.below(12);
